@@ -102,6 +102,32 @@ def run(ctx):
             ctx.fail_input("ref0", dict(ref=0.0), "reference 0.0 as float / dict / list gives %s / %s / %s, MSIsotropy(ref=0.0) %s" % (outs[0], outs[1], outs[2], iso0), None)
     except Exception as e:
         ctx.fail_input("ref0", dict(ref=0.0), "reference 0.0 given as a float raised %s: %s" % (type(e).__name__, e), None)
+    # ---- crafted: one- and two-letter elements sharing their first letter (C/Cl, N/Na, S/Si, H/He), reference and gradient dictionaries in several
+    #      key orders and with entries missing: every atom is addressed by ITS element only (does not depend on the draw)
+    try:
+        from ase import Atoms as _At
+        el_ = ["H", "C", "Cl", "N", "Na", "O", "Si", "S", "He", "Ca"]
+        a1 = _At(el_, positions=[[1.9 * i, 0.3 * i, 0] for i in range(len(el_))], cell=[30, 30, 30], pbc=True)
+        a1.set_array("ms", np.array([np.diag([10.0 + 3 * i, 20.0 - i, 5.0 + 2 * i]) for i in range(len(el_))]))
+        sig_ = [float(np.trace(m_) / 3) for m_ in a1.get_array("ms")]
+        full_ = {e: 100.0 + 7.5 * k for k, e in enumerate(el_)}
+        orders_ = [list(el_), list(reversed(el_)), sorted(el_, key=lambda e: (len(e), e)), sorted(el_, key=lambda e: (-len(e), e))]
+        dicts_ = [{e: full_[e] for e in o_} for o_ in orders_] + [{e: full_[e] for e in o_ if e not in ("Cl", "Na")} for o_ in orders_[:2]] + \
+                 [{e: full_[e] for e in o_ if e not in ("C", "N", "S")} for o_ in orders_[:2]]
+        for rd_ in dicts_:
+            for gd_ in (-1.0, {"C": -0.97, "N": -1.02}, {"Cl": -0.95, "Si": -1.05, "He": -0.9}):
+                ctx.evaluations += 1
+                sh_ = MSShift.get(a1.copy(), ref=rd_, grad=gd_)
+                for i, e in enumerate(el_):
+                    r_ = rd_.get(e, 0.0)
+                    g_ = gd_.get(e, -1.0) if isinstance(gd_, dict) else gd_
+                    f_ = r_ + g_ * sig_[i] / (1 + r_ * 1e-6)
+                    if not close(sh_[i], f_):
+                        ctx.fail_input("ms", dict(elems=el_, atom=i, prop="shift", ref=rd_, grad=gd_, ms_array=a1.get_array("ms").tolist(), efg_array=np.zeros((len(el_), 3, 3)).tolist()),
+                                       "atom %d (%s): shift %r, its own reference and gradient give %r (keys %s)" % (i, e, float(sh_[i]), f_, list(rd_)), None)
+                        break
+    except Exception as e:
+        ctx.fail_input("ms", dict(elems=["H", "C", "Cl"], form="crafted"), "crafted reference dictionaries raised %s: %s" % (type(e).__name__, str(e)[:160]), None)
     cur = {}            # the structure and options of the current iteration, attached to every recorded failure so that it can be replayed
 
     _fail = ctx.fail_input
